@@ -9,11 +9,11 @@ SPEC = {
              'inside (output, batch under construction, rest of the input) == leaves arrived, in order; emitted '
              'batch sizes; acceptance only when empty (judged on the previous event boundary); buffers and sinks count every leaf (level() == stored leaf parts, sink counters); every held '
              'batch\'s routing history is a suffix of each contained part\'s; a case is one model; non-trivial = '
-             'at least one output emitted by a batcher and a batch received somewhere; also: user-defined Batch subclasses, hand-made parts added to batches by callbacks, refused history removals, and the rule that a part\'s routing history never loses entries'),
+             'at least one output emitted by a batcher and a batch received somewhere; also: user-defined Batch subclasses, hand-made parts added to batches by callbacks, refused history removals, and the rule that a part\'s routing history never loses entries; pallets of boxes (batches of batches) taken apart in two steps, order and sizes judged on direct members, the history rule on every part at every depth'),
     'floors': {'quick': {'batcher_outputs': 3500, 'batcher_checks': 30000, 'empty_batches_consumed': 20,
-                         'batch_history_checks': 5000},
+                         'batch_history_checks': 5000, 'pallets_nested_batch_history_checks': 300},
                'thorough': {'batcher_outputs': 100000, 'batcher_checks': 600000, 'empty_batches_consumed': 400,
-                            'batch_history_checks': 100000}},
+                            'batch_history_checks': 100000, 'pallets_nested_batch_history_checks': 6000}},
     'assumptions': ['a PartBatcher is never placed inside a group (DESIGN 2.8)'],
     'timeout_s': {'quick': 900, 'thorough': 7200},
 }
@@ -32,6 +32,12 @@ def run(sh):
     engine_line.run_profile(sh, 'C17', 'batching', n // 4, MONITORS, nontrivial, prefix='inserts_',
                             overrides={'p_insert': 0.6, 'p_value_cb': 0, 'p_batch_source': 0.9}, tag='inserts')
 
+    # pallets of boxes: batches whose members are batches, taken apart in two steps; the history rule reaches every
+    # part at every depth (buffers and sinks count direct members there, so only the batching monitor runs)
+    engine_line.run_profile(sh, 'C17', 'batching', n // 3, ('batching',), nontrivial, prefix='pallets_',
+                            overrides={'p_nested_batch': 1.0, 'p_batch_source': 0.95, 'p_insert': 0,
+                                       'stage_w': {'batcher': 7, 'buffer': 2, 'gates': 2, 'handler': 2, 'processor': 2}},
+                            tag='nested')
     # generators that re-use one scratch list for every Batch, in front of a PartBatcher that unpacks it
     from .. import core, modelgen
     pol = ['prng', 'fifo', 'lifo', 'const']
